@@ -53,7 +53,7 @@ def resolve_ident(name, scope, qtypes, amt):
 
 def check_crate(ctx, config, w, crate, dims, counts):
     U = w.U
-    amt = ws.amount_type(config)
+    amt = "fpdec::Decimal" if "dec" in config else "f64"
     qts = [q for q in w.qtypes if q.crate is crate and q.kind != "dimless"]
     if not qts:
         return
@@ -119,7 +119,7 @@ def check_crate(ctx, config, w, crate, dims, counts):
         ss, rr, oo = strip(s), strip(r), out
         def dim(k):
             if k == amt:
-                return dims[AMT]
+                return dims.get(AMT)
             return dims.get(k)
         if (ss in qpaths or ss == amt) and (rr in qpaths or rr == amt) and (ss in qpaths or rr in qpaths):
             ds, dr, do = dim(ss), dim(rr), dim(oo)
